@@ -1,6 +1,7 @@
 package main
 
 import (
+	"crypto/rand"
 	"fmt"
 	"strings"
 
@@ -60,6 +61,48 @@ func titleGraph(ws []string) string {
 	return fmt.Sprintf("%d,%s", len(parts), strings.Join(parts, ","))
 }
 
+// warmList uses a freshly constructed list for other recipes first (both short lengths, every scheme, a
+// constant separator, zero tape): a *WordList is shared by many recipes in a real program, and what one
+// recipe did with it must not show in the next.
+func warmList(wl *spg.WordList) {
+	if wl == nil || wl.Size() == 0 {
+		return
+	}
+	saved, savedReader := tape, rand.Reader
+	for _, L := range []int{1, 2} {
+		for _, cs := range []spg.CapScheme{spg.CSAll, spg.CSOne, spg.CSRandom, spg.CSFirst, spg.CSNone, "All"} {
+			install([]chunk{{bs: make([]byte, 256)}})
+			r := spg.NewWLRecipe(L, wl)
+			r.Capitalize = cs
+			r.SeparatorChar = "."
+			_, _ = r.Generate()
+			_ = r.Entropy()
+		}
+	}
+	tape, rand.Reader = saved, savedReader
+	drain(capOut)
+	drain(capErr)
+}
+
+// callerBuffer hands the words over in a buffer that the harness, like a caller reading lists in a loop, reuses
+// for every construction (same backing array, often the same length); scribble overwrites it afterwards: the
+// list must neither remember the buffer nor share it.
+var wlBuf []string
+
+func callerBuffer(list []string) []string {
+	if list == nil {
+		return nil
+	}
+	wlBuf = append(wlBuf[:0], list...)
+	return wlBuf
+}
+
+func scribble(list []string) {
+	for i := range list {
+		list[i] = "\x00overwritten-by-the-caller"
+	}
+}
+
 var presets = map[string]spg.SFFunction{
 	"SFNone": spg.SFNone, "SFDigits1": spg.SFDigits1, "SFDigits2": spg.SFDigits2,
 	"SFDigitsNoAmbiguous1": spg.SFDigitsNoAmbiguous1, "SFDigitsNoAmbiguous2": spg.SFDigitsNoAmbiguous2,
@@ -85,6 +128,10 @@ func (t *toks) sepArg(r *spg.WLRecipe) {
 	switch k := t.next(); k {
 	case "char":
 		r.SeparatorChar = t.str()
+	case "both":
+		// both fields set: SeparatorChar first, then the function
+		r.SeparatorChar = t.str()
+		t.sepArg(r)
 	case "const":
 		v := t.str()
 		r.SeparatorFunc = func() (string, spg.FloatE) { return v, 0 }
@@ -101,6 +148,7 @@ func init() {
 	// wordlist <words>: construct; report size, emission order, title graph, whether the caller's slice changed
 	families["wordlist"] = func(t *toks) string {
 		list, _ := t.wordsArg()
+		list = callerBuffer(list)
 		before := append([]string(nil), list...)
 		wl, err := spg.NewWordList(list)
 		same := len(before) == len(list)
@@ -120,8 +168,9 @@ func init() {
 			}
 			return s + " slice=" + sl
 		}
+		scribble(list)
 		order := readOrder(wl)
-		return fmt.Sprintf("ok size=%d words=%s titles=%s slice=%s", wl.Size(), showStrs(order), titleGraph(list), sl)
+		return fmt.Sprintf("ok size=%d words=%s titles=%s slice=%s", wl.Size(), showStrs(order), titleGraph(before), sl)
 	}
 	// wlgen <words> <length> <sep> <cap> <budget> <source>
 	families["wlgen"] = func(t *toks) string {
@@ -135,13 +184,20 @@ func init() {
 			wl = &spg.WordList{}
 		default:
 			var err error
+			orig := list
+			list = callerBuffer(list)
 			wl, err = spg.NewWordList(list)
 			if err != nil {
 				return "err " + errKind(err) + " atconstruction"
 			}
+			scribble(list)
+			list = orig
 			drain(capOut) // the construction notice is the wordlist family's business
 			drain(capErr)
 			pre = fmt.Sprintf("order=%s titles=%s ", showStrs(readOrder(wl)), titleGraph(list))
+			if strings.HasSuffix(caseID, "+") {
+				warmList(wl)
+			}
 		}
 		panicPrefix = pre
 		r := spg.NewWLRecipe(t.int(), wl)
